@@ -80,6 +80,8 @@ def P(pid):
             ('RF-B interface constants (all entry points)', rf_consts.rule_interface_constants, 40),
             ('A5 ciphersuite constants', rf_consts.rule_ciphersuite_constants, 30),
             ('RF-C generator seeds', lambda c: rf_hash.rule_hash_binding(c, rf_hash.BBS_TABLE, BBS_SCOPE, only_fns=hash_fns('create_generators')), 10),
+            ('RF-S no cache / shared state (generators are a pure function of count, api_id and the suite)', rf_consts.rule_shared_state, 3),
+            ('RF-T size thresholds (first k generators independent of count)', rf_frame.rule_size_thresholds, 10),
         ]
         meta['explanation'] = ('Domain separation decided as constant propagation: from every public entry point exactly the interface\'s '
                                'api id (and the BLIND_ prefix for blind generators) reaches every DST / seed role; the two suites differ in '
